@@ -130,7 +130,19 @@ fn main() {
                         if g.2.contains(&(local as u32)) { continue; }
                         let d = (o.final_values()[maps[gi][local] as usize] - val).abs();
                         if !(d <= 1e-5 * scale) {
-                            bad(format!("group {gi} variable {local}: {d:.3e} away from its value when solved alone (sketch scale {scale}, group scale {})", g.0.scale), "values-differ");
+                            // a weakly determined group (sigma_min/sigma_max of its own linearisation at its
+                            // own solution below 1e-3) keeps moving along the weak direction for as long as the
+                            // union keeps iterating: bucketed separately (global stopping rules, F17)
+                            let mut at = g.0.clone();
+                            for (k, v) in g.1.final_values().iter().enumerate() { at.guesses[k].1 = *v; }
+                            kcl_ezpz::verif_hooks::trace_start();
+                            let _ = solve_analysis(&at.reqs, at.guesses.clone(), at.config());
+                            let ev = kcl_ezpz::verif_hooks::trace_take();
+                            let sigma: Vec<f64> = ev.iter().rev().find_map(|e| if let kcl_ezpz::verif_hooks::TraceEvent::Dof { sigma, .. } = e { Some(sigma.clone()) } else { None }).unwrap_or_default();
+                            let smax = sigma.iter().cloned().fold(0.0f64, f64::max);
+                            let smin = sigma.iter().cloned().filter(|s| *s > 1e-9 * smax).fold(f64::INFINITY, f64::min);
+                            let weak = sigma.is_empty() || smax == 0.0 || smin / smax < 1e-3;
+                            bad(format!("group {gi} variable {local}: {d:.3e} away from its value when solved alone (sketch scale {scale}, group scale {}, sigma ratio of the group {:.2e})", g.0.scale, smin / smax), if weak { "values-differ-weakly-determined-group" } else { "values-differ" });
                             break;
                         }
                     }
